@@ -195,7 +195,9 @@ class MovingWindow(ChangeDetector):
         )
         c = -np.log(np.log(1 / np.sqrt(1 - level)))
         # TODO: Check if it's correct to multiply by p.
-        return p * (b + c) / a
+        # The asymptotic formula turns negative for levels close to 1. The scores are
+        # non-negative and 0 in the unscored margins, so the threshold is kept at 0.
+        return max(p * (b + c) / a, 0.0)
 
     def _get_threshold(self, X: pd.DataFrame) -> float:
         if self.threshold_scale is None:
